@@ -10,7 +10,7 @@
    default values refer to older objects only). *)
 From Coq Require Import ZArith List Bool Arith String.
 From SV Require Import C02.Model C02.Spec C02.Arity C02.ArityTable
-  C02.ProofsCommon C02.ProofsFreeze C02.ProofsTraverse C02.ProofsConverse C02.ProofsArity.
+  C02.ProofsCommon C02.ProofsFreeze C02.ProofsTraverse C02.ProofsConverse C02.ProofsArity C02.ProofsStatements.
 Import ListNotations.
 
 (* Freeze: for every finite heap (cyclic included), every set of already frozen
@@ -19,7 +19,7 @@ Import ListNotations.
 Theorem freeze_total :
   forall h fz x, wf_heap h = true -> x < size h ->
     exists fz', freeze code_guards (sq_bound h) h fz x = Done fz' /\ incl fz fz'.
-Proof. intros h fz x Hwf Hx. exact (freeze_total_lemma h Hwf fz x Hx). Qed.
+Proof. exact freeze_total_stmt. Qed.
 
 (* writeValue, full statement:
      forall h x, wf_heap h = true -> x < size h ->
@@ -36,10 +36,7 @@ Proof. exact write_value_refuted_lemma. Qed.
 Theorem write_value_total_partial :
   forall h x, wf_heap h = true -> struct_free h = true -> x < size h ->
     write_value code_guards (sq_bound h) h [] x = Done tt.
-Proof.
-  intros h x Hwf Hsf Hx.
-  exact (write_total_lemma h code_guards Hwf eq_refl eq_refl (or_intror (or_introl Hsf)) x Hx).
-Qed.
+Proof. exact write_value_total_partial_stmt. Qed.
 
 (* ... more generally when every struct is a record of immutable data (no list and
    no dict below it through tuples and structs); missing: structs with a list or
@@ -47,10 +44,7 @@ Qed.
 Theorem write_value_total_partial_plain_structs :
   forall h x, wf_heap h = true -> structs_plain h = true -> x < size h ->
     write_value code_guards (sq_bound h) h [] x = Done tt.
-Proof.
-  intros h x Hwf Hsp Hx.
-  exact (write_total_lemma h code_guards Hwf eq_refl eq_refl (or_intror (or_intror Hsp)) x Hx).
-Qed.
+Proof. exact write_value_total_partial_plain_structs_stmt. Qed.
 
 (* ... and exactly: for EVERY heap the interpreter can build and every root, either
    the detector wv_check -- write_value instrumented with the stack of open
@@ -64,16 +58,13 @@ Theorem write_value_ends_iff_no_struct_cycle :
      forall fuel, write_value code_guards fuel h [] x = OutOfFuel) \/
     (wv_check (cube_bound h) h [] [] x = WDone /\
      write_value code_guards (cube_bound h) h [] x = Done tt).
-Proof. intros h x Hwf Hx. exact (write_value_ends_iff_lemma h x Hwf Hx). Qed.
+Proof. exact write_value_ends_iff_no_struct_cycle_stmt. Qed.
 
 (* ... and the full statement for the repair "Struct.String hands writeValue's path on" *)
 Theorem write_value_total_if_struct_keeps_path :
   forall h x, wf_heap h = true -> x < size h ->
     write_value repaired_print_guards (sq_bound h) h [] x = Done tt.
-Proof.
-  intros h x Hwf Hx.
-  exact (write_total_lemma h repaired_print_guards Hwf eq_refl eq_refl (or_introl eq_refl) x Hx).
-Qed.
+Proof. exact write_value_total_if_struct_keeps_path_stmt. Qed.
 
 (* CompareDepth: for EVERY heap (no invariant needed), every depth limit, operator
    and pair of roots the recursion is at most depth+1 deep *)
@@ -86,7 +77,7 @@ Proof. exact compare_total_lemma. Qed.
 Theorem hash_total :
   forall h x, wf_heap h = true -> x < size h ->
     hash (size h) h x = Done tt \/ hash (size h) h x = Fail.
-Proof. intros h x Hwf Hx. exact (hash_total_lemma h x Hwf Hx). Qed.
+Proof. exact hash_total_stmt. Qed.
 
 (* json.encode: for EVERY heap the pointer path bounds the depth by size+1 *)
 Theorem json_emit_total :
